@@ -187,7 +187,31 @@ def c05(run):
                         "warm contexts are rotated after 4000 steps; the replay file of a violation carries the whole history of the warm context"]
 
 
-PROPS = {"C01": c01, "C03": c03, "C05": c05, "C17": c17, "C02": c02, "C06": c06, "C04": c04, "C12": c12, "C13": c13, "C14": c14}
+def c11(run):
+    run.sites = {"update", "panic"}
+    deep = "FALSE" if run.quick() else "TRUE"
+    tlc, s = run_tlc_replay(run, "MC_Update", "MC_Update.tla",
+                            dict(spec="Spec", constants={"Deep": deep}, invariants=["UpdatedEquivFresh", "Emit"]),
+                            "C11", workers=4, threads=8, timeout=7000)
+    run.add(tlc, s)
+    # method / option switches with composition state around them: MC_Session histories contain update events
+    d = 4 if run.quick() else 5
+    tlc, s = run_tlc_replay(run, "MC_Session_mixed", "MC_Session.tla",
+                            dict(spec="Spec", constants={"Depth": d, "Emitting": "TRUE", "Family": '"mixed"', "MaxLen": 3},
+                                 invariants=["Emit"]), "C11", workers=4, threads=8)
+    run.add(tlc, s)
+    run.sites |= {"fresh"}
+    run.rule = ("TLC enumerates histories [typing before] [edits of the user auto-correct file] update-engine(new configuration) [typing after] over "
+                "%s configurations (phonetic with different options, fixed with two layout files) and 3 words (one with a bundled auto-correct entry), checks "
+                "UpdatedEquivFresh on the memo/stamp model and emits every maximal history; the harness writes the file with explicit modification times, "
+                "runs the history, creates a brand-new context with the new configuration over the same user files at the update point and compares the "
+                "complete renderings of every later key.  MC_Session histories (depth %d) add update events between arbitrary composition events with "
+                "fresh-context forks.  Non-trivial = histories with at least one compared continuation." % ("4" if run.quick() else "7", d))
+    run.assumptions += ["only content edits with an advancing modification time are generated (the statement says 'edited'); deleting the file is out of scope",
+                        "every configuration of a history uses the same data directory (the statement: same data directory)"]
+
+
+PROPS = {"C01": c01, "C11": c11, "C03": c03, "C05": c05, "C17": c17, "C02": c02, "C06": c06, "C04": c04, "C12": c12, "C13": c13, "C14": c14}
 
 
 def replay_file(run, path):
